@@ -44,7 +44,7 @@ def run_outlier(run, driver, case):
 
     def rec(self, reporting_units, response_variable, outlier_z_threshold):
         out = orig(self, reporting_units, response_variable, outlier_z_threshold)
-        calls.append((response_variable, int(reporting_units.shape[0]), list(out["geographic_unit_fips"])))
+        calls.append((response_variable, int(reporting_units.shape[0]), list(out["geographic_unit_fips"]), id(self)))
         return out
 
     CD.CombinedDataHandler._fit_outlier_detection_model = rec
@@ -52,6 +52,9 @@ def run_outlier(run, driver, case):
         res = A.run_case(case)
     finally:
         CD.CombinedDataHandler._fit_outlier_detection_model = orig
+    # a case with a frame history polls twice (two handler objects): the observed call is the last one, only its models count
+    if calls:
+        calls = [c for c in calls if c[3] == calls[-1][3]]
     L = A.light(case)
     run.case(L, True)
     run.count("outlier stream")
